@@ -1,5 +1,6 @@
 """Hypothesis strategies producing plain JSON specs (DESIGN.md 3). Never imports adsg_core."""
 from hypothesis import strategies as st
+from .strat import ints
 
 DEG_ALPHABET = [
     [0], [1], [2], [0, 1], [1, 2], [0, 2], [1, 3], [0, 1, 2],
@@ -11,7 +12,7 @@ CON_TYPES = ['LINKED', 'PERMUTATION', 'UNORDERED', 'UNORDERED_NOREPL']
 
 @st.composite
 def sel_spec(draw, min_nodes=3, max_nodes=12, max_incompat=3, p_extra=True, max_opts=4, dag_rich=False):
-    n = draw(st.integers(min_nodes, max_nodes))
+    n = draw(ints(min_nodes, max_nodes))
     n_start = draw(st.sampled_from([1, 1, 1, 2])) if n >= 4 else 1
     names = [f'n{i}' for i in range(n)]
     nodes = {nm: {'k': 'gen'} for nm in names}
@@ -38,30 +39,30 @@ def sel_spec(draw, min_nodes=3, max_nodes=12, max_incompat=3, p_extra=True, max_
 
     if dag_rich:
         # many forward cross links: nodes with several derivers (diamonds), no cycles from these
-        for _ in range(draw(st.integers(2, 7))):
-            i = draw(st.integers(0, len(placed)-2))
-            j = draw(st.integers(i+1, len(placed)-1))
+        for _ in range(draw(ints(2, 7))):
+            i = draw(ints(0, len(placed)-2))
+            j = draw(ints(i+1, len(placed)-1))
             u, v = placed[i], placed[j]
             if v in start or [u, v] in edges or any(c['origin'] == u and v in c['opts'] for c in choices):
                 continue
             edges.append([u, v])
     if p_extra:
         # extra derivation edges (cross links, cycles)
-        n_extra = draw(st.integers(0, 3))
+        n_extra = draw(ints(0, 3))
         for _ in range(n_extra):
             u = draw(st.sampled_from(placed))
             v = draw(st.sampled_from(placed))
             if [u, v] in edges:
                 continue
-            if u == v and (u in start or draw(st.integers(0, 2)) != 0):
+            if u == v and (u in start or draw(ints(0, 2)) != 0):
                 continue   # self-referencing derivation edges (cycles of length 1) are kept in one third of the draws
             if any(c['origin'] == u and v in c['opts'] for c in choices):
                 continue
             edges.append([u, v])
         # shared option nodes: add an existing node to an existing choice
-        n_shared = draw(st.integers(0, 2)) if choices else 0
+        n_shared = draw(ints(0, 2)) if choices else 0
         for _ in range(n_shared):
-            i = draw(st.integers(0, len(choices)-1))
+            i = draw(ints(0, len(choices)-1))
             v = draw(st.sampled_from(placed))
             c = choices[i]
             if v in start or v == c['origin'] or v in c['opts'] or len(c['opts']) >= max_opts:
@@ -70,28 +71,28 @@ def sel_spec(draw, min_nodes=3, max_nodes=12, max_incompat=3, p_extra=True, max_
                 continue
             c['opts'].append(v)
         # an extra choice over existing nodes
-        if draw(st.integers(0, 3)) == 0 and len(placed) > n_start+2:
+        if draw(ints(0, 3)) == 0 and len(placed) > n_start+2:
             origin = draw(st.sampled_from(placed))
             cand = [v for v in placed if v not in start and v != origin and [origin, v] not in edges]
             if len(cand) >= 2:
-                k = draw(st.integers(2, min(3, len(cand))))
+                k = draw(ints(2, min(3, len(cand))))
                 opts = draw(st.permutations(cand))[:k]
                 choices.append({'origin': origin, 'opts': list(opts)})
 
-    if p_extra and draw(st.integers(0, 3)) == 0:
+    if p_extra and draw(ints(0, 3)) == 0:
         # root nodes that are NOT start nodes (removed by set_start_nodes together with everything only they derive);
         # their derivation chains may merge indirectly and may lead into nodes that are reachable from the start nodes
-        n_orph = draw(st.integers(1, 3))
+        n_orph = draw(ints(1, 3))
         mids = []
         for i in range(n_orph):
             nodes[f'q{i}'] = {'k': 'gen'}
-            if draw(st.integers(0, 3)) != 0:
+            if draw(ints(0, 3)) != 0:
                 nodes[f'qm{i}'] = {'k': 'gen'}
                 edges.append([f'q{i}', f'qm{i}'])
                 mids.append(f'qm{i}')
             else:
                 mids.append(f'q{i}')
-        if draw(st.integers(0, 3)) != 0:
+        if draw(ints(0, 3)) != 0:
             nodes['qg'] = {'k': 'gen'}
             for m in draw(st.lists(st.sampled_from(mids), min_size=1, max_size=len(mids), unique=True)):
                 edges.append([m, 'qg'])
@@ -100,7 +101,7 @@ def sel_spec(draw, min_nodes=3, max_nodes=12, max_incompat=3, p_extra=True, max_
                 nodes['qh'] = {'k': 'gen'}
                 edges.append(['qg', 'qh'])
                 tail = 'qh'
-            r = draw(st.integers(0, 3))
+            r = draw(ints(0, 3))
             if r == 0:
                 v = draw(st.sampled_from(placed))
                 if v not in start:
@@ -115,7 +116,7 @@ def sel_spec(draw, min_nodes=3, max_nodes=12, max_incompat=3, p_extra=True, max_
                 choices.append({'origin': tail, 'opts': ['qo0', v]})
 
     incompat = []
-    n_inc = draw(st.integers(0, max_incompat))
+    n_inc = draw(ints(0, max_incompat))
     for _ in range(n_inc):
         u = draw(st.sampled_from(placed))
         v = draw(st.sampled_from(placed))
@@ -136,7 +137,7 @@ def coupled_spec(draw):
     """2-3 selection choices that are active from the start and coupled by incompatibility constraints between their
     options (the complete encoder merges them into one scenario in which not every value combination exists), plus
     optionally a dependent choice below one of the options"""
-    n_ch = draw(st.integers(2, 3))
+    n_ch = draw(ints(2, 3))
     nodes, edges, choices, start = {}, [], [], []
     two_start = draw(st.booleans())
     nodes['r'] = {'k': 'gen'}
@@ -149,20 +150,20 @@ def coupled_spec(draw):
             start.append(org)
         else:
             org = 'r'
-        opts = [f'k{i}o{j}' for j in range(draw(st.integers(2, 3)))]
+        opts = [f'k{i}o{j}' for j in range(draw(ints(2, 3)))]
         for o in opts:
             nodes[o] = {'k': 'gen'}
         choices.append({'id': ids[i], 'origin': org, 'opts': opts})
     incompat = []
-    for _ in range(draw(st.integers(1, 3))):
-        i = draw(st.integers(0, n_ch-2))
-        j = draw(st.integers(i+1, n_ch-1))
+    for _ in range(draw(ints(1, 3))):
+        i = draw(ints(0, n_ch-2))
+        j = draw(ints(i+1, n_ch-1))
         pair = [draw(st.sampled_from(choices[i]['opts'])), draw(st.sampled_from(choices[j]['opts']))]
         if pair not in incompat:
             incompat.append(pair)
-    if draw(st.integers(0, 3)) != 0:
-        host = draw(st.sampled_from(choices[draw(st.integers(0, n_ch-1))]['opts']))
-        opts = [f'd{j}' for j in range(draw(st.integers(2, 3)))]
+    if draw(ints(0, 3)) != 0:
+        host = draw(st.sampled_from(choices[draw(ints(0, n_ch-1))]['opts']))
+        opts = [f'd{j}' for j in range(draw(ints(2, 3)))]
         nodes['dn'] = {'k': 'gen'}
         edges.append([host, 'dn'])
         for o in opts:
@@ -182,11 +183,11 @@ def gen_nodes(spec):
 @st.composite
 def add_dvs(draw, spec, max_dv=3):
     gens = gen_nodes(spec)
-    n_dv = draw(st.integers(0, max_dv))
+    n_dv = draw(ints(0, max_dv))
     for i in range(n_dv):
         nm = f'dv{i}'
         if draw(st.booleans()):
-            spec['nodes'][nm] = {'k': 'dv', 'opts': draw(st.integers(1, 4))}
+            spec['nodes'][nm] = {'k': 'dv', 'opts': draw(ints(1, 4))}
         else:
             lo = draw(st.sampled_from([-2.0, 0.0, 0.5, 10.0]))
             w = draw(st.sampled_from([0.5, 1.0, 3.0, 100.0]))
@@ -198,7 +199,7 @@ def add_dvs(draw, spec, max_dv=3):
 @st.composite
 def add_metrics(draw, spec, max_met=4):
     gens = gen_nodes(spec)
-    n = draw(st.integers(1, max_met))
+    n = draw(ints(1, max_met))
     for i in range(n):
         nm = f'm{i}'
         spec['nodes'][nm] = {'k': 'met', 'dir': draw(st.sampled_from([None, -1, 1])),
@@ -206,7 +207,7 @@ def add_metrics(draw, spec, max_met=4):
                              'type': draw(st.sampled_from([None, None, 'NONE', 'OBJECTIVE', 'CONSTRAINT',
                                                            'OBJ_OR_CON']))}
         spec['edges'].append([draw(st.sampled_from(gens)), nm])
-        if draw(st.integers(0, 4)) == 0:  # second deriver
+        if draw(ints(0, 4)) == 0:  # second deriver
             p2 = draw(st.sampled_from(gens))
             if [p2, nm] not in spec['edges']:
                 spec['edges'].append([p2, nm])
@@ -217,12 +218,12 @@ def add_metrics(draw, spec, max_met=4):
 def add_conns(draw, spec, max_choices=2, max_side=3, allow_grp=True, small=False, start_bias=2, min_choices=None,
               grp_den=3):
     gens = gen_nodes(spec)
-    n_cc = draw(st.integers(1, max_choices)) if min_choices is None else draw(st.integers(min_choices, max_choices))
+    n_cc = draw(ints(1, max_choices)) if min_choices is None else draw(ints(min_choices, max_choices))
     alphabet = DEG_ALPHABET
     for i_cc in range(n_cc):
         cc = {'id': f'k{i_cc}', 'src': [], 'tgt': [], 'excl': []}
         for side in ('src', 'tgt'):
-            n_side = draw(st.integers(1, 2 if small else max_side))
+            n_side = draw(ints(1, 2 if small else max_side))
             conn_names = []
             for j in range(n_side):
                 nm = f'{side[0]}{i_cc}{j}'
@@ -233,8 +234,8 @@ def add_conns(draw, spec, max_choices=2, max_side=3, allow_grp=True, small=False
                 spec['edges'].append([parent, nm])
                 conn_names.append(nm)
             items = list(conn_names)
-            if allow_grp and n_side >= 2 and draw(st.integers(0, grp_den)) == 0:
-                k = draw(st.integers(2, n_side))
+            if allow_grp and n_side >= 2 and draw(ints(0, grp_den)) == 0:
+                k = draw(ints(2, n_side))
                 members = conn_names[:k]
                 rep = spec['nodes'][members[0]]['rep']
                 for m in members:
@@ -244,7 +245,7 @@ def add_conns(draw, spec, max_choices=2, max_side=3, allow_grp=True, small=False
                 items = [{'grp': g, 'members': members}]+conn_names[k:]
             cc[side] = items
         tops = lambda items: [it['grp'] if isinstance(it, dict) else it for it in items]
-        n_ex = draw(st.integers(0, 2)) if draw(st.booleans()) else 0
+        n_ex = draw(ints(0, 2)) if draw(st.booleans()) else 0
         for _ in range(n_ex):
             pair = [draw(st.sampled_from(tops(cc['src']))), draw(st.sampled_from(tops(cc['tgt'])))]
             if pair not in cc['excl']:
@@ -258,8 +259,8 @@ def add_constraint(draw, spec, allow_dv=True):
     """One choice constraint over 2-3 new selection choices with equal option counts and fresh option nodes."""
     gens = gen_nodes(spec)
     t = draw(st.sampled_from(CON_TYPES))
-    n_ch = draw(st.integers(2, 3))
-    n_opt = draw(st.integers(2, 3 if n_ch == 3 else 4))
+    n_ch = draw(ints(2, 3))
+    n_opt = draw(ints(2, 3 if n_ch == 3 else 4))
     placement = draw(st.sampled_from(['perm', 'hier', 'hier_rev', 'mutex', 'free', 'free']))
     if n_ch > n_opt and t in ('PERMUTATION', 'UNORDERED_NOREPL') and placement != 'perm':
         # unsatisfiable sizes: documented as 'the DSG is infeasible' (docs/theory.md), which agrees with the property
@@ -281,7 +282,7 @@ def add_constraint(draw, spec, allow_dv=True):
         if placement == 'perm':
             origin = spec['start'][0]
         elif placement in ('hier', 'hier_rev'):
-            origin = spec['start'][0] if i == 0 else new_choices[i-1]['opts'][draw(st.integers(0, n_opt-1))]
+            origin = spec['start'][0] if i == 0 else new_choices[i-1]['opts'][draw(ints(0, n_opt-1))]
         elif placement == 'mutex':
             if i == 0:
                 # parent choice with one option per constrained choice
@@ -304,9 +305,9 @@ def add_constraint(draw, spec, allow_dv=True):
 @st.composite
 def add_linked_dvs(draw, spec):
     gens = gen_nodes(spec)
-    n = draw(st.integers(2, 3))
+    n = draw(ints(2, 3))
     discrete = draw(st.booleans())
-    n_opt = draw(st.integers(2, 4))
+    n_opt = draw(ints(2, 4))
     names = []
     for i in range(n):
         nm = f'ldv{i}'
@@ -326,13 +327,13 @@ def add_linked_dvs(draw, spec):
 def full_spec(draw, p_conn=0.35, p_dv=0.4, p_con=0.3, max_nodes=10, small_conn=False):
     """G-SEL u G-CONN u G-DV u G-CON mix used by the processor-level checks"""
     spec = draw(sel_spec(max_nodes=max_nodes))
-    r = draw(st.integers(0, 99))
+    r = draw(ints(0, 99))
     if r < p_con*100:
         spec = draw(add_constraint(spec))
-    r = draw(st.integers(0, 99))
+    r = draw(ints(0, 99))
     if r < p_conn*100:
-        spec = draw(add_conns(spec, max_choices=1 if draw(st.integers(0, 3)) else 2, small=small_conn))
-    r = draw(st.integers(0, 99))
+        spec = draw(add_conns(spec, max_choices=1 if draw(ints(0, 3)) else 2, small=small_conn))
+    r = draw(ints(0, 99))
     if r < p_dv*100:
         spec = draw(add_dvs(spec))
     return spec
@@ -443,19 +444,19 @@ def layered_spec(draw, max_incompat=3):
         return nm
 
     l1 = []
-    for i in range(draw(st.integers(2, 3))):
-        opts = [new() for _ in range(draw(st.integers(2, 3)))]
+    for i in range(draw(ints(2, 3))):
+        opts = [new() for _ in range(draw(ints(2, 3)))]
         choices.append({'origin': 'n0', 'opts': opts})
         l1 += opts
     l2 = []
-    for _ in range(draw(st.integers(2, 4))):
+    for _ in range(draw(ints(2, 4))):
         nm = new()
         parents = draw(st.lists(st.sampled_from(l1+l2), min_size=1, max_size=2, unique=True))
         for p_ in parents:
             edges.append([p_, nm])
         l2.append(nm)
     l3 = []
-    for _ in range(draw(st.integers(1, 3))):
+    for _ in range(draw(ints(1, 3))):
         nm = new()
         parents = draw(st.lists(st.sampled_from(l2+l3), min_size=1, max_size=2, unique=True))
         for p_ in parents:
@@ -463,13 +464,13 @@ def layered_spec(draw, max_incompat=3):
         l3.append(nm)
     if draw(st.booleans()):
         origin = draw(st.sampled_from(l2+l3))
-        opts = [new() for _ in range(draw(st.integers(1, 3)))]
+        opts = [new() for _ in range(draw(ints(1, 3)))]
         if draw(st.booleans()):
             opts.append(draw(st.sampled_from([n for n in l2+l3 if n != origin])))
         choices.append({'origin': origin, 'opts': opts})
     others = [n for n in nodes if n != 'n0']
     incompat = []
-    for _ in range(draw(st.integers(1, max_incompat))):
+    for _ in range(draw(ints(1, max_incompat))):
         u = draw(st.sampled_from(others))
         v = draw(st.sampled_from(others))
         if u != v and [u, v] not in incompat and [v, u] not in incompat:
